@@ -1,4 +1,5 @@
 import PilotaModel.TGen.Async
+import PilotaModel.TGen.AsyncC
 import PilotaModel.TGen.Decode
 import PilotaModel.TGen.Keep
 import PilotaModel.TGen.Mem
@@ -106,6 +107,15 @@ def answer (docs : Docs) (items : List Sexp) : Option (Docs × String) := do
         | .ok (v, n) => pure (docs, s!"ok {shown v} pulled={n}")
         | o => pure (docs, if o.cls == "depth" then "err" else o.cls)
       | none =>
+      -- … and on the compact async protocol
+      if (verb == "ga" || verb == "gab") && !(dn.endsWith "k") && (match p with | .cmp => true | _ => false) then
+        let chunks : List Nat := match items[4]? >>= Sexp.asAtom with
+          | some c => if c == "-" then [] else (c.splitOn ",").filterMap String.toNat?
+          | none => []
+        match Pilota.TGen.adecodeC d ty (streamOf chunks bs) with
+        | .ok (v, n) => pure (docs, s!"ok {shown v} pulled={n}")
+        | o => pure (docs, if o.cls == "depth" then "err" else o.cls)
+      else
       match decodeWith d ty p bs (dn.endsWith "k") with
       | .ok (v, rem) =>
         if verb == "ga" || verb == "gab" then pure (docs, s!"ok {shown v} pulled={bs.length - rem}")
